@@ -104,8 +104,10 @@ def impl(case):
             out["bad_length"] = "ValueError"
     if case.get("unitary_like"):
         wts = get_pauli_weights(n)
-        out["entropy"] = float(quantum_fourier_entropy(A.copy()))
-        out["influence"] = float(average_pauli_weight(A.copy(), wts))
+        # entropy and influence read the same operator through the same representation the decomposition got
+        rep = (lambda: A.copy()) if k2 else (lambda: Ain.copy() if case.get("layout") in ("c", "real-dtype") else Ain)
+        out["entropy"] = float(quantum_fourier_entropy(rep()))
+        out["influence"] = float(average_pauli_weight(rep(), wts))
     return out
 
 
